@@ -70,6 +70,8 @@ pub struct Knobs {
     pub p_device: f64,
     /// literal entries use boundary constants and full-width values
     pub wide_literals: bool,
+    /// output signals may be 63 or 64 bits wide
+    pub wide_signals: bool,
 }
 
 impl Knobs {
@@ -98,6 +100,7 @@ impl Knobs {
             bidir: false,
             p_device: 0.0,
             wide_literals: false,
+            wide_signals: false,
         }
     }
     /// flat-ish programs dominated by data rows
@@ -144,7 +147,8 @@ impl Gen {
             Sig::input("P", 1, Val::N(0)),
             Sig::input("Q", 1, Val::N(1)),
         ];
-        let widths = [1usize, 3, 4, 8, 16, 32, 63, 64];
+        // (widths 63 and 64 are the business of the C07 / C10 workloads)
+        let widths: &[usize] = if self.k.wide_signals { &[1, 3, 4, 8, 16, 32, 63, 64] } else { &[1, 3, 4, 8, 16, 32] };
         for v in self.k.vars.clone() {
             supplied.push(Sig::output(&v, *widths.choose(&mut self.rng).unwrap()));
         }
